@@ -11,7 +11,8 @@ instruction / type / value kind this model does not know: a new kind in go/ir mu
 added to the model and the typing table before anything is validated).
 Every answer ends in ` # h=<hash of the input line>` (used to count distinct cases).
 stats: `nb=` blocks, `ni=` instructions, `phi=` φ-nodes, `xuse=` operand slots whose
-definition is in another block, `typed=` instructions whose kind has a typing row.
+definition is in another block, `typed=` instructions whose kind has a typing row, `unreach=` blocks not reachable from the
+entry in `f.graph` (their uses are vacuously dominated).
 Details are produced by unverified reporting code; they name the first offending
 instruction / pair so that the finding can be confirmed by hand on the dump.
 -/
@@ -255,7 +256,10 @@ def check (f : FnDump) : String :=
       match o with
       | some v => (match fa[v]? with | some (bd, _, _) => bd != x.1 | none => false)
       | none => false).length).foldl (· + ·) 0
-  let stats := s!"nb={f.nblocks} ni={fl.length} phi={phis} xuse={xuse} typed={typed}"
+  let G := f.graph
+  let reach := avoidGo G G.size G.size (G.size + edgeCount G + 2) [0] (Array.replicate G.size false)
+  let unreach := ((List.range G.size).filter fun b => !reach.getD b false).length
+  let stats := s!"nb={f.nblocks} ni={fl.length} phi={phis} xuse={xuse} typed={typed} unreach={unreach}"
   if v && bad.isEmpty then s!"ok {stats}"
   else if v || bad.isEmpty then s!"fail:clauses-disagree {stats}"
   else
